@@ -51,11 +51,13 @@ PROPS = {
             {"test": "^TestC16Exhaustive$", "shards": 4, "timeout": 300},
             {"test": "^TestC16Sampled$", "shards": 4, "checks": 2000, "timeout": 300},
             {"test": "^TestC16Wire$", "shards": 4, "checks": 150, "timeout": 300},
+            {"test": "^TestC16Authz$", "shards": 16, "timeout": 600, "group": 1},
         ]},
         "thorough": {"runs": [
             {"test": "^TestC16Exhaustive$", "shards": 4, "timeout": 600},
             {"test": "^TestC16Sampled$", "shards": 8, "checks": 60000, "timeout": 3000},
             {"test": "^TestC16Wire$", "shards": 4, "checks": 4000, "timeout": 3000},
+            {"test": "^TestC16Authz$", "shards": 16, "timeout": 1200, "group": 1},
         ]},
     },
     "C15": {
@@ -74,5 +76,22 @@ PROPS = {
                            {"test": "^TestC15LeadingNewline$", "shards": 1, "checks": 30, "timeout": 300}]},
         "thorough": {"runs": [{"test": "^TestC15$", "shards": 16, "checks": 1500, "timeout": 3400},
                               {"test": "^TestC15LeadingNewline$", "shards": 1, "checks": 300, "timeout": 600}]},
+    },
+    "C05": {
+        "title": "Every privileged effect requires the governing privilege",
+        "level": "exploration",
+        "rule": "independent table of 68 cells (request type x target kind -> governing privilege numbers, from the protocol's privilege list) "
+                "covering all 43 registered transaction types; TestC05Matrix enumerates every cell x {each of the 40 single-privilege "
+                "bitmaps, all, none, all-but-one-governing}; TestC05 draws cell x requester bitmap (random 64 bits with governing bits "
+                "forced, all-but-governing, only-governing, missing-one) with rapid; each case runs in a fresh world with two observers; "
+                "oracle: effect observed only if its privileges are held; all held => effect observed and no error; any missing => error "
+                "reply, file/config snapshot unchanged, observers and victim receive nothing, requester's transfer list unchanged; "
+                "non-trivial = requester bitmap is neither empty nor all 40 privileges; distinct = hash(cell, bitmap)",
+        "assumptions": ["upload / drop-box target folders are named unambiguously (Uploads, Drop Box, other)",
+                        "the privilege table in harness/props/c05_test.go is the oracle (written from the protocol privilege list)"],
+        "quick": {"runs": [{"test": "^TestC05Matrix$", "shards": 16, "timeout": 600},
+                           {"test": "^TestC05$", "shards": 16, "checks": 150, "timeout": 600}]},
+        "thorough": {"runs": [{"test": "^TestC05Matrix$", "shards": 16, "timeout": 1200},
+                              {"test": "^TestC05$", "shards": 16, "checks": 6000, "timeout": 3400}]},
     },
 }
